@@ -96,12 +96,21 @@ def gen_cases(rng, tier):
         us = list(w.order)
         kx, ky = rng.choice('qu'), rng.choice('qu')
         u, v = rng.choice(us), rng.choice(us)
+        two = [c for c in w.classes.values() if c['cdef'] and len(c['cdef']) == 2
+               and all(w.classes[k]['ref'] for k, _ in c['cdef'])]
+        if two and rng.random() < 0.3:
+            # reference units of the two types a derived type is made of
+            c = rng.choice(two)
+            u, v = w.classes[c['cdef'][0][0]]['ref'], w.classes[c['cdef'][1][0]]['ref']
         r = rng.random()
         if r < 0.2:
             op = ['pow', C02._opd(rng, u, kx), rng.choice([-2, -1, 2, 3])]
         else:
             op = [rng.choice(['mul', 'div']), C02._opd(rng, u, kx), C02._opd(rng, v, ky)]
         hist = []
+        if op[0] != 'pow' and rng.random() < 0.35:
+            # the other operator on the same ordered pair first (cache keys)
+            hist.append(['div' if op[0] == 'mul' else 'mul', ['u', op[1][-1]], ['u', op[2][-1]]])
         for _ in range(rng.randint(0, 6)):
             h = rng.random()
             if h < 0.4:
